@@ -15,6 +15,8 @@ tree; exit 1 is a false alarm, exit 2 a rule that pinned the text instead of the
   T7 temp-return   return <expr>    ->  _rv = <expr>; return _rv
   T8 expand-in     x in (A, B) -> x == A or x == B
   T10 rename-private-functions  every private function/method of the package `_f` -> `_f_rn`, all references included
+  T11 name-tests   if <cond>: -> _c = <cond>; if _c:
+  T12 de-morgan    a and b -> not (not a or not b), a or b -> not (not a and not b)  (branch tests)
   T9 negate-eq     a != b -> not (a == b), a is not b -> not (a is b), a not in b -> not (a in b)
 
 Usage: tools/metamorph.py [T1 T3 ...] [--tier quick|thorough|both] [--props C01,C07] [--bisect]
@@ -269,6 +271,57 @@ def _collect_private_funcs():
     return names - other  # a name also used for a variable / parameter / class is left alone
 
 
+class NameTests(ast.NodeTransformer):
+    """if <cond>: ...  ->  _c<n> = <cond>; if _c<n>: ...   (every `if` statement whose test is not a bare name;
+    `elif` arms are left alone because the test would have to move into the previous arm)"""
+
+    def __init__(self):
+        self.n = 0
+
+    def _fix(self, body):
+        out = []
+        for st in body:
+            if isinstance(st, ast.If) and not isinstance(st.test, (ast.Name, ast.Constant)):
+                self.n += 1
+                nm = f"_c{self.n}"
+                out.append(ast.Assign(targets=[ast.Name(id=nm, ctx=ast.Store())], value=st.test, lineno=st.lineno))
+                st.test = ast.Name(id=nm, ctx=ast.Load())
+            out.append(st)
+        return out
+
+    def generic_visit(self, node):
+        super().generic_visit(node)
+        for fld in ("body", "orelse", "finalbody"):
+            b = getattr(node, fld, None)
+            if isinstance(b, list) and b and isinstance(b[0], ast.stmt):
+                # an `elif` is an If that is the only statement of an orelse: leave it
+                if fld == "orelse" and isinstance(node, ast.If) and len(b) == 1 and isinstance(b[0], ast.If):
+                    continue
+                setattr(node, fld, self._fix(b))
+        return node
+
+
+class DeMorgan(ast.NodeTransformer):
+    """a and b -> not (not a or not b);  a or b -> not (not a and not b)   (inside `if`/`while` tests only)"""
+
+    def _dm(self, t):
+        if isinstance(t, ast.BoolOp):
+            vals = [ast.UnaryOp(op=ast.Not(), operand=self._dm(v)) for v in t.values]
+            other = ast.Or() if isinstance(t.op, ast.And) else ast.And()
+            return ast.UnaryOp(op=ast.Not(), operand=ast.BoolOp(op=other, values=vals))
+        return t
+
+    def visit_If(self, node):
+        self.generic_visit(node)
+        node.test = self._dm(node.test)
+        return node
+
+    def visit_While(self, node):
+        self.generic_visit(node)
+        node.test = self._dm(node.test)
+        return node
+
+
 TRANSFORMS = {
     "T0": ("reformat", None),
     "T1": ("swap-compare", SwapCompare),
@@ -281,6 +334,8 @@ TRANSFORMS = {
     "T8": ("expand-in-tuple", ExpandIn),
     "T9": ("negate-eq", NegateEq),
     "T10": ("rename-private-functions", RenamePrivateFuncs),
+    "T11": ("name-tests", NameTests),
+    "T12": ("de-morgan", DeMorgan),
 }
 
 
